@@ -84,6 +84,9 @@ def family(tier, seed):
     F.append(Skel('e3-explicit-lists', ['z', 'b', 'm'], {'z': ('r', 'l'), 'b': ('l',), 'm': ('r',)},
                   {('z', 'r'): ('b', 'z'), ('z', 'l'): ('z',), ('b', 'l'): ('b',), ('m', 'r'): ('z',)},
                   absorbing=['b'], init=['z'], action_order=['r', 'l'], explicit_lists=True))
+    # an EXPLICITLY absorbing state that offers no action at all (its flag must not be confused with a dead end), and a true dead end next to it
+    F.append(Skel('a3-absorbing-without-actions', ['s', 'g', 'd'], {'s': ('a', 'b'), 'g': (), 'd': ()},
+                  {('s', 'a'): ('g', 's'), ('s', 'b'): ('d',)}, absorbing=['g'], init=['s']))
     if fd is not None:
         a, b = fd({'x': 0}), fd({'x': 1})
         F.append(Skel('f2-frozendict', [a, b], {a: ('go',), b: ('go',)}, {(a, 'go'): (a, b), (b, 'go'): (b,)}, absorbing=[b], init=[a]))
